@@ -111,6 +111,10 @@ def shadow(modname: str, rebind: dict | None = None, cuts: dict | None = None, c
     cuts:   {qualname: {loop_ordinal: LoopSpec}} for pyvc.loopcut.
     """
     ensure_repo_on_path()
+    try:
+        importlib.import_module(modname)   # real import first: resolves import cycles
+    except Exception:
+        pass
     key = (modname, cache_key)
     if cache_key is not None and key in _SHADOW_CACHE:
         return _SHADOW_CACHE[key]
@@ -123,7 +127,6 @@ def shadow(modname: str, rebind: dict | None = None, cuts: dict | None = None, c
 
         tree = loopcut.transform(tree, cuts, dropped)
         ast.fix_missing_locations(tree)
-    code = compile(tree, path, "exec")
     mod = types.ModuleType(modname)
     mod.__file__ = path
     if os.path.basename(path) == "__init__.py":
@@ -136,13 +139,80 @@ def shadow(modname: str, rebind: dict | None = None, cuts: dict | None = None, c
         pre = {k: v for k, v in rebind.items() if k in _BUILTIN_NAMES}
         mod.__dict__.update(pre)
     mod.__dict__["__pyvc__"] = _runtime_namespace()
-    exec(code, mod.__dict__)
+    # The body is executed statement by statement so that the models are (re)bound right
+    # after the module's own import statements: default arguments captured at `def` time
+    # (e.g. `def encodeInt(value, bytechr=bytechr, pack=struct.pack)`) then see the models.
+    for stmt in tree.body:
+        code = compile(ast.Module(body=[stmt], type_ignores=[]), path, "exec")
+        exec(code, mod.__dict__)
+        if rebind and isinstance(stmt, (ast.Import, ast.ImportFrom, ast.Try, ast.If)):
+            mod.__dict__.update(rebind)
     if rebind:
         mod.__dict__.update(rebind)
     mod.__pyvc_dropped__ = dropped
     if cache_key is not None:
         _SHADOW_CACHE[key] = mod
     return mod
+
+
+def shadow_functions(modname: str, qualnames, rebind: dict | None = None, cuts: dict | None = None):
+    """Lighter shadow for big modules: the namespace is a copy of the REAL module's
+    namespace (so every class and helper is the real object), the names in `rebind` are
+    bound to models, and only the listed functions/methods are re-compiled from the
+    source text in /repo so that they look their globals up in this namespace.
+    Returns (namespace-module, {qualname: function})."""
+    ensure_repo_on_path()
+    realmod = importlib.import_module(modname)
+    path = module_path(modname)
+    src = source_of(modname)
+    tree = ast.parse(src, filename=path)
+    dropped = []
+    if cuts:
+        from . import loopcut
+
+        tree = loopcut.transform(tree, cuts, dropped)
+        ast.fix_missing_locations(tree)
+    mod = types.ModuleType(modname)
+    mod.__dict__.update(realmod.__dict__)
+    mod.__dict__["__pyvc__"] = _runtime_namespace()
+    if rebind:
+        mod.__dict__.update(rebind)
+    out = {}
+    for qn in qualnames:
+        node = find_def(tree, qn)
+        if node is None:
+            raise LookupError("%s.%s not found" % (modname, qn))
+        node = _strip_decorators(node)
+        scratch = dict()
+        code = compile(ast.Module(body=[node], type_ignores=[]), path, "exec")
+        # exec with globals=mod namespace, locals=scratch: the def lands in scratch but its
+        # __globals__ is the shadow namespace
+        exec(code, mod.__dict__, scratch)
+        fn = scratch[node.name]
+        out[qn] = fn
+        if "." not in qn:
+            mod.__dict__[qn] = fn
+    mod.__pyvc_dropped__ = dropped
+    return mod, out
+
+
+_ALLOWED_DECORATORS = ("staticmethod", "classmethod", "lru_cache", "cython", "functools", "property")
+
+
+def _strip_decorators(node):
+    """Decorators on the allow-list are dropped (documented in DESIGN 3.1): cython.* are
+    no-ops in pure-Python mode, static/classmethod only change binding, lru_cache is
+    semantically transparent for pure functions."""
+    import copy
+
+    node = copy.deepcopy(node)
+    keep = []
+    for d in node.decorator_list:
+        txt = ast.unparse(d)
+        if not txt.startswith(_ALLOWED_DECORATORS):
+            keep.append(d)
+    node.decorator_list = keep
+    return node
 
 
 _BUILTIN_NAMES = set(dir(__builtins__)) if not isinstance(__builtins__, dict) else set(__builtins__)
